@@ -211,6 +211,13 @@ def run_case(concepts, case, spec):
         for _ in range(rng.randint(0, 2)):
             next(it, None)
         del it
+    if hash(gen.table_key(case)) % 4 == 0:      # a second lattice built on the very same context object
+        lat2 = call(concepts.lattices.Lattice, ctx)
+        if lat2 is not RAISED:
+            common.tie(lat2, ctx)
+            call(list, lat2)
+            call(len, lat2)
+            COL.count('second_lattice_on_same_context')
     if rng.random() < .3:           # two iterations of one lattice alive at once
         it1 = iter(lat)
         next(it1, None)
